@@ -39,6 +39,15 @@ def npos : Nat := 2 ^ 64 - 1
 def ch0 : Nat := 48
 def ch1 : Nat := 49
 
+/-- [bitset.cons] `bitset(const charT* str, n, zero, one)`: "`n == basic_string::npos ? basic_string(str) :
+    basic_string(str, n)`" — the characters before the first `charT()` when `n` is `npos`, otherwise EXACTLY
+    the first `n` characters, null characters included.  `mem` = what `str` points at. -/
+def cstrChars (mem : List Nat) (n : Nat) : List Nat :=
+  if n = npos then mem.takeWhile (fun c => c != 0) else mem.take n
+
+/-- `bitset(const charT* str, n, zero, one)` = `bitset(<that string>, 0, n, zero, one)` -/
+def ofCstr (N : Nat) (mem : List Nat) (n zeroCh : Nat) : Bits := ofString N (cstrChars mem n) 0 n zeroCh
+
 /-! observers -/
 def test (b : Bits) (pos : Nat) : Bool := b pos
 def count (N : Nat) (b : Bits) : Nat := (List.range N).countP b
@@ -80,10 +89,10 @@ def step (N : Nat) (st : Store) : Op → Store
   | .not o src => st.put o (flipAll (st src))
   | .fromUll o v => st.put o (ofNat v)
   | .fromStr o str pos n zeroCh _ => st.put o (ofString N str pos n zeroCh)
-  | .fromCstr o buf n zeroCh _ => st.put o (ofString N buf 0 n zeroCh)
+  | .fromCstr o buf n zeroCh _ => st.put o (ofCstr N buf n zeroCh)
   | .setD o pos => st.put o (set1 (st o) pos true)
   | .fromStrD o str pos n zeroCh _ => st.put o (ofString N str (arg pos 0) (arg n npos) (arg zeroCh ch0))
-  | .fromCstrD o buf n zeroCh _ => st.put o (ofString N buf 0 (arg n npos) (arg zeroCh ch0))
+  | .fromCstrD o buf n zeroCh _ => st.put o (ofCstr N buf (arg n npos) (arg zeroCh ch0))
 
 def run (N : Nat) : Store → List Op → Store
   | st, [] => st
